@@ -2,6 +2,7 @@
 IncrementSeq, §5.3 Export)."""
 
 G3 = 'impl<A: Aead, Kdf: KdfTrait, Kem: KemTrait>'
+from contracts.c_lib import from_bytes_clauses
 IMPL = 'A::AeadImpl'
 NH = 'nh_of::<Kdf::HashImpl>()'
 
@@ -86,12 +87,8 @@ def apply(F):
     F.contract(S, r'fn write_exact\b', attrs=['#[verifier::external_body]'], discharged_by='kani:write_exact_tag')
     F.wrap([], S[0])
     D = [r'impl<A: Aead> Deserializable for AeadTag<A>']
-    F.contract(D, r'fn from_bytes\b', ret='r', clauses='''
-        ensures
-            /*@C12 C13*/ r is Ok <==> encoded@.len() == nt_of::<A::AeadImpl>(),
-            /*@C12*/ r is Err ==> r == Err::<Self, HpkeError>(HpkeError::IncorrectInputLength(nt_of::<A::AeadImpl>() as usize, encoded@.len() as usize)),
-            /*@C12 C06*/ r is Ok ==> r.unwrap().ser() == encoded@,
-''')
+    F.insert_in([], D[0], '    open spec fn de_valid(b: Bytes) -> bool { true }')
+    F.contract(D, r'fn from_bytes\b', ret='r', clauses=from_bytes_clauses('tnum::<Self::OutputSize>()') + ',\n')
     F.wrap([], D[0])
 
     F.wrap([], r'pub\(crate\) struct AeadCtx<A: Aead, Kdf: KdfTrait, Kem: KemTrait>')
